@@ -216,6 +216,24 @@ Definition data_steps (l : list tline) : list Z :=
 Definition calc_steps (evs : list tevent) : list Z :=
   flat_map (fun e => match e with TCalc it => [it] | _ => [] end) evs.
 
+(* ---- label text --------------------------------------------------------------------------------- *)
+(* cvm::wrap_string(s, n): pad with spaces to n characters, or cut to the first n; a label is the column's prefix
+   ("", "v_", "ft_", "E_", ...) followed by wrap_string(name, width - length prefix).  Characters are their codes. *)
+Definition wrap_string (s : list nat) (n : nat) : list nat :=
+  if (length s <=? n)%nat then s ++ repeat 32%nat (n - length s) else firstn n s.
+Definition label_text (prefix name : list nat) (width : nat) : list nat :=
+  prefix ++ wrap_string name (width - length prefix).
+(* what a reader splitting the line on blanks sees *)
+Fixpoint strip_trailing (l : list nat) : list nat :=
+  match l with
+  | [] => []
+  | c :: r => match strip_trailing r with
+              | [] => if (c =? 32)%nat then [] else [c]
+              | r' => c :: r'
+              end
+  end.
+Definition label_token (prefix name : list nat) (width : nat) : list nat := strip_trailing (label_text prefix name width).
+
 (* ---- which other files a step writes (colvarmodule::calc, colvarproxy::post_run) ------------------ *)
 (* FState: the state file (its `step` field is the step at which it is written); FColvar: the output files of the
    variables (correlation functions); FBias b: the output files of bias b (histograms, PMFs, ...). The output
